@@ -188,3 +188,31 @@ theorem compare_equal_sets_unchanged (old new : List String) (h : ∀ k, k ∈ o
   simp [Diff.hasChanged, ha, hr]
 
 end Ucfg.C15
+
+namespace Ucfg.C15
+open Ucfg.Forest
+
+/-! ### SetChild (attach) -/
+
+/-- a config without a parent that is attached gets the place it is attached at as its context -/
+theorem attach_fresh_child_gets_context (h : Heap) (child to : Id) (f : String) (n : Node)
+    (hn : h[child]? = some n) (hp : n.parent = none) :
+    (attachCtx h child to f)[child]? = some { n with parent := some to, field := f } := by
+  unfold attachCtx
+  rw [hn]
+  simp only [hp, Option.isNone_none, if_true]
+  have hlt : child < h.length := by
+    rcases Nat.lt_or_ge child h.length with hl | hl
+    · exact hl
+    · rw [List.getElem?_eq_none hl] at hn; cases hn
+  rw [List.getElem?_set_self hlt]
+
+/-- known finding D20, as the model has it: a config that already has a parent is stored as it is - it keeps the name
+and parent of its first position (cfgSub.SetContext's else-branch is lost with its value receiver) -/
+theorem attach_attached_child_keeps_old_context (h : Heap) (child to q : Id) (f : String) (n : Node)
+    (hn : h[child]? = some n) (hp : n.parent = some q) : attachCtx h child to f = h := by
+  unfold attachCtx
+  rw [hn]
+  simp [hp]
+
+end Ucfg.C15
